@@ -12,6 +12,8 @@ CONSTANTS Family = "pixie"
           MaxStored = 5
           MaxLen = 6
           EmitOn = TRUE
+          Sprint = 0
+          SpanEnd = 0
           TwoBranch = FALSE
           TraceLen = 0
 VIEW View
